@@ -296,6 +296,25 @@ def D23():
         f"necessity of the 'and' step x (parents: disabled defense d2, TTC-gated p1): {res} (expected True in any order)"
 
 
+def D21():
+    import zipfile
+    from maltoolbox.translators.securicad import load_model_from_scad_archive
+    lg, lcf, m0, *_ = base()
+    eom = ('<?xml version="1.0"?><root>'
+           '<objects id="1" metaConcept="Attacker" name="atk"/>'
+           '<objects id="2" metaConcept="Host" name="h"/>'
+           '<associations sourceObject="1" targetObject="2" sourceProperty="firstSteps" targetProperty="connect.attacker"/>'
+           '<associations sourceObject="1" targetObject="2" sourceProperty="firstSteps" targetProperty="access.attacker"/>'
+           '</root>')
+    p = os.path.join(os.getcwd(), 'm.sCAD')
+    with zipfile.ZipFile(p, 'w') as z:
+        z.writestr('model.eom', eom)
+    m = load_model_from_scad_archive(p, lg, lcf)
+    ser = m._to_dict()['attackers']
+    steps = sorted(s for a in ser.values() for ep in a['entry_points'].values() for s in ep['attack_steps'])
+    return steps != ['access', 'connect'], f'two entry points on one asset in the .sCAD file -> serialised entry steps {steps}'
+
+
 if __name__ == '__main__':
     ids = sys.argv[1:] or sorted((k for k in globals() if k[0] == 'D' and k[1:].isdigit()),
                                  key=lambda s: int(s[1:]))
